@@ -12,11 +12,11 @@ import (
 )
 
 const (
-	trapOOBMem   = "out of bounds memory access"
-	trapTable    = "invalid table access"
-	trapSig      = "indirect call type mismatch"
-	trapUnreach  = "unreachable"
-	noMax  int64 = -1
+	trapOOBMem        = "out of bounds memory access"
+	trapTable         = "invalid table access"
+	trapSig           = "indirect call type mismatch"
+	trapUnreach       = "unreachable"
+	noMax       int64 = -1
 )
 
 type mFunc struct {
@@ -28,11 +28,19 @@ type mFunc struct {
 	ops     []Op
 }
 
+// mRef is a non-null function reference. imp records that it was created from an index that
+// is an import in the creating module (ref.func / element item / ftab entry of an imported
+// function): semantically irrelevant, but it is the class of finding C04-lookup-imported-funcref.
+type mRef struct {
+	f   *mFunc
+	imp bool
+}
+
 type mGlobal struct {
 	vt     byte
 	mut    bool
 	lo, hi uint64
-	fn     *mFunc
+	fn     *mRef
 	lastW  string
 }
 
@@ -40,7 +48,7 @@ type mTable struct {
 	elem  byte
 	min   uint32 // declared
 	max   int64  // declared
-	fn    []*mFunc
+	fn    []*mRef
 	ext   []uint64
 	lastW string
 }
@@ -69,7 +77,8 @@ type mInst struct {
 	tables  []*mTable
 	mem     *mMem
 	globals []*mGlobal
-	ftab    []*mFunc
+	refs    []*mRef // one reference per function index, as this instance creates them
+	ftab    []*mRef
 }
 
 type model struct {
@@ -82,6 +91,8 @@ type model struct {
 	okInst     int
 	failAfter  bool
 	sharedKind [4]bool
+
+	allowExcluded bool
 }
 
 func newModel(limit uint32) *model {
@@ -143,14 +154,15 @@ func (in *mInst) export(name string) (extern, bool) {
 
 // plan is the model's analysis of instantiating a spec in the current store.
 type plan struct {
-	compileReject bool   // the module reads a mutable global in a constant expression (spec-invalid)
-	specCompat    bool   // every import matches its export by the specification's rules
-	wzCompat      bool   // every import matches by the (stricter) rules wazero documents/implements
-	why           string // first incompatibility
-	inst          *mInst // candidate instance (allocated, globals initialised), nil if !specCompat
-	elemOOB       int    // index of the first out-of-bounds active element segment, -1 if none
-	elemShared    bool   // some user element segment writes to an imported table
+	compileReject bool     // the module reads a mutable global in a constant expression (spec-invalid)
+	specCompat    bool     // every import matches its export by the specification's rules
+	wzCompat      bool     // every import matches by the (stricter) rules wazero documents/implements
+	why           string   // first incompatibility
+	inst          *mInst   // candidate instance (allocated, globals initialised), nil if !specCompat
+	elemOOB       int      // index of the first out-of-bounds active element segment, -1 if none
+	elemShared    bool     // some user element segment writes to an imported table
 	nullOver      [][2]int // (segment, item) of null items that land on a non-null funcref slot
+	aliasMut      bool     // one mutable global object is imported under two indices
 }
 
 func (m *model) matchImport(im ImportSpec) (ex extern, spec, wz bool, why string) {
@@ -201,7 +213,7 @@ func (m *model) matchImport(im ImportSpec) (ex extern, spec, wz bool, why string
 	}
 }
 
-func (m *model) evalExpr(in *mInst, e Expr) (lo, hi uint64, fn *mFunc) {
+func (m *model) evalExpr(in *mInst, e Expr) (lo, hi uint64, fn *mRef) {
 	switch e.K {
 	case "i32", "f32":
 		return uint64(uint32(e.V)), 0, nil
@@ -212,7 +224,7 @@ func (m *model) evalExpr(in *mInst, e Expr) (lo, hi uint64, fn *mFunc) {
 	case "null":
 		return 0, 0, nil
 	case "func":
-		return 0, 0, in.funcs[e.V]
+		return 0, 0, in.refs[e.V]
 	case "gget":
 		g := in.globals[e.V]
 		return g.lo, g.hi, g.fn
@@ -245,6 +257,13 @@ func (m *model) plan(spec *ModSpec, name string) *plan {
 		case kMem:
 			in.mem = ex.m
 		case kGlobal:
+			if ex.g.mut {
+				for _, o := range in.globals {
+					if o == ex.g {
+						p.aliasMut = true
+					}
+				}
+			}
 			in.globals = append(in.globals, ex.g)
 		}
 	}
@@ -254,10 +273,13 @@ func (m *model) plan(spec *ModSpec, name string) *plan {
 	for i, f := range spec.Funcs {
 		in.funcs = append(in.funcs, &mFunc{def: in, modName: spec.Name, idx: in.v.nIF + i, sig: f.Sig, id: f.ID, ops: f.Ops})
 	}
+	for i, f := range in.funcs {
+		in.refs = append(in.refs, &mRef{f: f, imp: i < in.v.nIF})
+	}
 	for _, t := range spec.Tables {
 		mt := &mTable{elem: t.Elem, min: t.Min, max: t.Max}
 		if t.Elem == wasmenc.FuncRef {
-			mt.fn = make([]*mFunc, t.Min)
+			mt.fn = make([]*mRef, t.Min)
 		} else {
 			mt.ext = make([]uint64, t.Min)
 		}
@@ -271,8 +293,8 @@ func (m *model) plan(spec *ModSpec, name string) *plan {
 		mg.lo, mg.hi, mg.fn = m.evalExpr(in, g.Init)
 		in.globals = append(in.globals, mg)
 	}
-	in.ftab = make([]*mFunc, len(in.funcs)+2)
-	copy(in.ftab[1:], in.funcs)
+	in.ftab = make([]*mRef, len(in.funcs)+2)
+	copy(in.ftab[1:], in.refs)
 	p.inst = in
 	// look ahead (without writing) for the classes this check excludes
 	overlay := map[*mTable]map[int]bool{} // slots written by earlier segments of this module: non-null?
@@ -499,14 +521,14 @@ func (m *model) callFunc(f *mFunc) ([]uint64, string) {
 	return idResults(f.sig, f.id), ""
 }
 
-func (m *model) callRef(f *mFunc, sig int) ([]uint64, string) {
-	if f == nil {
+func (m *model) callRef(r *mRef, sig int) ([]uint64, string) {
+	if r == nil {
 		return nil, trapTable
 	}
-	if f.sig != sig {
+	if r.f.sig != sig {
 		return nil, trapSig
 	}
-	return m.callFunc(f)
+	return m.callFunc(r.f)
 }
 
 // ---- accessor / host operations ----
@@ -514,6 +536,7 @@ func (m *model) callRef(f *mFunc, sig int) ([]uint64, string) {
 // result of evaluating a step on the model.
 type mres struct {
 	skip  bool     // the step does not apply (instance or object missing)
+	excl  string   // the step belongs to an excluded class (not executed, counted)
 	vals  []uint64 // expected results (after masking, see mask)
 	mask  []uint64 // per result: bits that are compared
 	trap  string   // expected trap message ("" = none)
@@ -722,7 +745,7 @@ func (m *model) eval(s Step) mres {
 		return mres{}
 	case "tgrowx", "tgrowf":
 		delta := arg(a, 0) & 0xffffffff
-		var fn *mFunc
+		var fn *mRef
 		if acc == "tgrowf" {
 			if t.elem != wasmenc.FuncRef {
 				return mres{skip: true}
@@ -772,7 +795,10 @@ func (m *model) eval(s Step) mres {
 		if slot >= uint64(len(t.fn)) || t.fn[slot] == nil {
 			return mres{trap: trapTable}
 		}
-		f := t.fn[slot]
+		if t.fn[slot].imp && !m.allowExcluded {
+			return mres{skip: true, excl: "excluded:lookup-of-reference-made-from-an-imported-function(" + findLookupImp + ")"}
+		}
+		f := t.fn[slot].f
 		if f.sig != s.Sig {
 			return mres{trap: trapSig}
 		}
